@@ -24,7 +24,7 @@ tvars == <<vars, l, A, askip, iskip>>
 
 -----------------------------------------------------------------------------
 (* ABS track (functional: logged observables only)                         *)
-AInit(ev) == [c |-> 0, rmark |-> 0, gaveUp |-> FALSE, empty |-> FALSE,
+AInit(ev) == [c |-> 0, rmark |-> 0, gaveUp |-> FALSE, trail |-> 0,
               pos |-> IF ev.fl = "bytes" THEN ev.S ELSE 0,
               failed |-> (ev.fl = "bytes"),   \* a bytes-backed reader's stream has already ended (EOF)
               fk |-> ev.fk, seed |-> ev.seed, fl |-> ev.fl, op |-> "none", n |-> 0]
@@ -43,17 +43,18 @@ AEndOK(a, ev) ==
              m |-> IF a.op = "skip" THEN (IF ev.ok THEN a.n ELSE 0) ELSE ev.m,
              start |-> IF a.op = "skip" THEN a.c ELSE SegStart(a, ev.seg, ev.m)]
       gb == [c |-> a.c, gaveUp |-> a.gaveUp]
-      ga == [c |-> a.c + consumed, opEmptySeen |-> a.empty]
+      ga == [c |-> a.c + consumed, trail |-> a.trail]
       s  == [pos |-> a.pos, failed |-> a.failed, fkind |-> a.fk]
   IN ev.e # "PANIC" /\ AbsAccepts(gb, ga, s, r)
 
 AStep(a, ev) ==
-  CASE ev.k = "start" -> [a EXCEPT !.empty = FALSE, !.op = ev.op, !.n = ev.n]
+  CASE ev.k = "start" -> [a EXCEPT !.trail = 0, !.op = ev.op, !.n = ev.n]
     [] ev.k = "read"  -> [a EXCEPT !.pos = a.pos + ev.m, !.failed = a.failed \/ ev.e # "nil",
-                                   !.empty = a.empty \/ (ev.m = 0 /\ ev.e = "nil" /\ ev.want > 0)]
+                                   !.trail = IF ev.m = 0 /\ ev.e = "nil" /\ ev.want > 0 THEN Min(a.trail + 1, MinGiveUpRun)
+                                             ELSE IF ev.m > 0 THEN 0 ELSE a.trail]
                                    \* (a Read into a zero-length buffer returning 0 says nothing about the source)
     [] ev.k = "end"   -> [a EXCEPT !.c = a.rmark + ev.rl,
-                                   !.gaveUp = a.gaveUp \/ (ev.e # "nil" /\ ~a.failed /\ a.empty)]
+                                   !.gaveUp = a.gaveUp \/ (ev.e # "nil" /\ ~a.failed /\ a.trail >= MinGiveUpRun)]
     [] ev.k = "release" -> [a EXCEPT !.rmark = a.c]
     [] OTHER -> a
 
